@@ -3,7 +3,7 @@ import core
 from core import hx, gen_int, gen_mag
 
 ID = "C05"
-READY = False
+READY = True
 ORACLE = "c05"
 HARNESS_BIN = "c05"
 NCASES = {"quick": 7000, "thorough": 150000}
@@ -15,13 +15,14 @@ LEVEL_TEXT = ("Machine-checked Coq theorems over faithful models of the comparis
               "values feed the hasher the same input, and every constructor (from_word/from_dword/from_buffer/ones/neg/with_sign/"
               "clone/clone_from/from_ref) returns a canonical representation, lifted to all finite histories by induction; (floats) "
               "repr_cmp_same_base with its precision and digit shortcuts equals the order of the values for all bases, precisions and "
-              "admissible digit estimates when no operand has precision+2 or more digits, == is value equality on normalised "
-              "representations, normalize establishes the invariant; (rationals) repr_eq/repr_cmp with their bit-length filters equal "
+              "admissible digit estimates (the precision shortcut of the pinned tree, unsound for significands with precision+2 or more "
+              "digits, is modelled separately, refuted, and was repaired), == is value equality on normalised representations, "
+              "normalize establishes the invariant (bases 2 and non-powers of two proved, 4/8/16/32 compared); (rationals) repr_eq/repr_cmp with their bit-length filters equal "
               "cross multiplication, RBig's structural ==/Hash is sound on reduced fractions. The models are tied to the code by a "
               "correspondence run that reads the real layout through a hook and replays the extracted models on it.")
 LEVEL_NOTE = ("Trusted: Coq kernel, extraction (FastZ.v), zarith, the harness and the thin OCaml driver. Modelled, not verified: the Rust "
               "sources; that every arithmetic result is built through Repr::from_word/from_dword/from_buffer is asserted on every run by "
-              "the layout hook, not proved. Open finding: floats with digits >= precision+2 (unrounded convert_base routes) are mis-ordered.")
+              "the layout hook, not proved. No open finding: ones(2*word bits) on the heap and the float precision shortcut were repaired in /repo.")
 TECHNIQUE = "Coq proof over as-is models of the comparison/representation code + extracted-model correspondence run with layout hook"
 RULE = ("cases = 2 or 3 values each produced along a route (from_words, padded words, +/- cancel in three operator forms, shifts, "
         "mul/div, div_rem, rem, clone, clone_from into larger/smaller buffers, bytes, radix text, ones, primitives, via IBig, bit set/clear, "
@@ -261,6 +262,8 @@ def flt_route(rng, b, s, e, prec):
         p = rng.choice([1, 2, 9])
     elif r == "withprec_up":
         p = rng.choice([1, 2, 50])
+        if prec == 0:
+            prec = d  # from unlimited precision, with_precision(p) would round: start from exactly d digits instead
     elif r == "same_p":
         p = rng.choice([0, d, d + 3])
     elif r == "fromint":
